@@ -1,4 +1,6 @@
 SPECIFICATION Spec
 CONSTANTS NEvents = 3
   Pauses = 3
-PROPERTY EventuallyDone
+  DispatchLock = TRUE
+INVARIANT Quiescent
+PROPERTIES NoStartWhilePaused EventuallyDone PauseReturns
